@@ -161,6 +161,10 @@ func (m *MuxBroker) Run() {
 		select {
 		case p.ch <- stream:
 		default:
+			// The slot is taken by an earlier dial to this ID that is still
+			// pending. Nobody can ever accept this stream, so close it and
+			// let its dialer fail instead of waiting forever.
+			stream.Close()
 		}
 
 		// Wait for a timeout
@@ -207,6 +211,9 @@ func (m *MuxBroker) timeoutWait(id uint32, p *muxBrokerPending) {
 		select {
 		case s := <-p.ch:
 			s.Close()
+		default:
+			// Nothing is parked any more (an Accept or another timeout took
+			// it): do not block here while holding the broker lock.
 		}
 	}
 }
